@@ -202,10 +202,6 @@ pub fn run_one(prop: &str, f: PropFn, tier: Tier, sandbox: &std::path::Path, tap
             let sim = simkit::uninstall();
             let sys_state = sys::end();
             let mut counters: BTreeMap<String, u64> = sim.counters.iter().map(|(k, v)| (k.to_string(), *v)).collect();
-            for (_, what) in &sys_state.fault_fired {
-                let kind = what.split('(').next().unwrap_or("fault").split('@').next().unwrap_or("fault");
-                *counters.entry(format!("fault:{}", kind)).or_insert(0) += 1;
-            }
             if sys_state.short_reads > 0 {
                 *counters.entry("fault:ShortRead".into()).or_insert(0) += sys_state.short_reads;
             }
